@@ -371,7 +371,7 @@ class Deep:
                 st2 = st.fork()
                 if kn is None:
                     st2.known[atom] = val
-                    st2.conds.append((atom, val))
+                    st2.conds.append(canon_atom(atom, val))
                 go(tg, st2)
             return
         for val, tg in targets + [(None, t["otherwise"])]:
@@ -607,6 +607,25 @@ class Deep:
             return self.read(st, a[1]), a[1]
         return a, None
 
+    # hash_map::Entry (the closure runs only for a vacant entry)
+    ENT = ("Occupied", "Vacant")
+
+    def c_entry_or_insert_with(self, fr, st, a, site, cont):
+        def vac(s):
+            def ins(s2, r):
+                uid = self.fresh()
+                s2.effects.append(("call", "Entry::insert", (a[0], r), site, uid))
+                cont(s2, ("call", "Entry::insert", (a[0], r), uid))
+            self._callf(fr, s, a[1], [], site, ins)
+        self._case(st, a[0], "e", self.ENT, site, lambda s, n, p: vac(s) if n == "Vacant" else cont(s, ("call", "Entry::get", (a[0],), self.fresh())))
+
+    def c_entry_or_insert(self, fr, st, a, site, cont):
+        def vac(s):
+            uid = self.fresh()
+            s.effects.append(("call", "Entry::insert", (a[0], a[1]), site, uid))
+            cont(s, ("call", "Entry::insert", (a[0], a[1]), uid))
+        self._case(st, a[0], "e", self.ENT, site, lambda s, n, p: vac(s) if n == "Vacant" else cont(s, ("call", "Entry::get", (a[0],), self.fresh())))
+
     # Option
     def c_option_map(self, fr, st, a, site, cont):
         self._case(st, a[0], "o", self.OPT, site, lambda s, n, p: self._callf(fr, s, a[1], [p()], site, lambda s2, r: cont(s2, self.some(r))) if n == "Some" else cont(s, self.NONE))
@@ -705,7 +724,7 @@ class Deep:
             st2 = st.fork()
             if kn is None:
                 st2.known[atom] = val
-                st2.conds.append((atom, val))
+                st2.conds.append(canon_atom(atom, val))
             body_fn(st2, val != flip)
 
     def c_bool_then(self, fr, st, a, site, cont):
@@ -778,7 +797,16 @@ class Deep:
 
 
 NEGATE = {"Eq": "Ne", "Ne": "Eq", "Lt": "Ge", "Ge": "Lt", "Gt": "Le", "Le": "Gt"}
+CANON_NEG = {"Ne": "Eq", "Ge": "Lt", "Gt": "Le"}
+
+
+def canon_atom(atom, val):
+    """Canonical form of a boolean condition: comparisons are expressed with Eq / Lt / Le only."""
+    if isinstance(val, bool) and atom[0] == "bin" and atom[1] in CANON_NEG:
+        return ("bin", CANON_NEG[atom[1]], atom[2], atom[3]), (not val)
+    return atom, val
 _BOOLP = re.compile(r"^(?:.*::)?bool::<impl bool>::(then|then_some)$")
+_ENTP = re.compile(r"^std::collections::hash_map::Entry::<.*>::(or_insert_with|or_insert)$")
 _COMBP = re.compile(r"^(?:std|core)::(?:option|result|ops|ops::control_flow)::(Option|Result|ControlFlow)::<.*>::(\w+)$")
 
 
@@ -801,6 +829,9 @@ class COMB:
         m = _COMBP.match(path)
         if m:
             return _M(m.group(1), m.group(2))
+        m = _ENTP.match(path)
+        if m:
+            return _M("entry", m.group(1))
         return None
 
 
